@@ -290,70 +290,26 @@ func c01LenUB(fn *ssa.Function, arg ssa.Value, at *ssa.BasicBlock) (int64, bool)
 
 // c01MaxAddend: fn returns its integer parameter par plus a constant on every path; the result
 // is the largest such constant (the worst-case additive overhead). ok=false if some return is not
-// of the form par + c.
-func c01MaxAddend(fn *ssa.Function, par *ssa.Parameter) (max int64, addends []int64, ok bool) {
-	var eval func(v ssa.Value, d int) ([]int64, bool)
-	eval = func(v ssa.Value, d int) ([]int64, bool) {
-		if d > 12 {
-			return nil, false
-		}
-		v = c01Strip(v)
-		if v == ssa.Value(par) {
-			return []int64{0}, true
-		}
-		switch x := v.(type) {
-		case *ssa.Phi:
-			var out []int64
-			for _, e := range x.Edges {
-				r, ok := eval(e, d+1)
-				if !ok {
-					return nil, false
-				}
-				out = append(out, r...)
-			}
-			return out, len(out) > 0
-		case *ssa.BinOp:
-			if x.Op != token.ADD {
-				return nil, false
-			}
-			base, k := x.X, x.Y
-			c, isC := constInt(k)
-			if !isC {
-				base, k = x.Y, x.X
-				c, isC = constInt(k)
-			}
-			if !isC {
-				return nil, false
-			}
-			r, ok := eval(base, d+1)
-			if !ok {
-				return nil, false
-			}
-			out := make([]int64, len(r))
-			for i := range r {
-				out[i] = r[i] + c
-			}
-			return out, true
-		}
-		return nil, false
-	}
-	n := 0
-	for _, b := range fn.Blocks {
-		if len(b.Instrs) == 0 {
+// of the form par + c. Constants may come out of same-module value helpers ("par + s.overhead()").
+func c01MaxAddend(p *Prog, fn *ssa.Function, par *ssa.Parameter) (max int64, addends []int64, ok bool) {
+	x := c04NewX(p)
+	root := x.Root(fn)
+	for _, r := range c04Returns(fn) {
+		if len(r.Results) != 1 {
 			continue
 		}
-		ret, isRet := b.Instrs[len(b.Instrs)-1].(*ssa.Return)
-		if !isRet || len(ret.Results) != 1 {
-			continue
-		}
-		n++
-		r, ok := eval(ret.Results[0], 0)
+		ts, ok := c01Terms(x, root, r.Results[0], c01Base{v: c04XV{root, par}}, 0)
 		if !ok {
 			return 0, nil, false
 		}
-		addends = append(addends, r...)
+		for _, t := range ts {
+			if !t.par {
+				return 0, nil, false
+			}
+			addends = append(addends, t.c)
+		}
 	}
-	if n == 0 || len(addends) == 0 {
+	if len(addends) == 0 {
 		return 0, nil, false
 	}
 	for _, a := range addends {
@@ -364,19 +320,82 @@ func c01MaxAddend(fn *ssa.Function, par *ssa.Parameter) (max int64, addends []in
 	return max, addends, true
 }
 
-// c01ErrorEdge: every return reachable from the target of e is an error return (the edge is a
-// rejection).
-func (c *Ctx) c01ErrorEdge(fn *ssa.Function, e Edge) bool {
-	to := e.To()
-	if len(to.Instrs) == 0 {
-		return false
+// c01Term is base*[par] + c.
+type c01Term struct {
+	par bool
+	c   int64
+}
+
+// c01Base names the quantity a linear form is relative to: the canonical value v itself, or (lenOf) the
+// length of the canonical slice/string value v.
+type c01Base struct {
+	v     c04XV
+	lenOf bool
+}
+
+// c01Terms evaluates integer value v (in frame fr of engine x) to the set of forms "base + c" / "c" it may
+// take. Phis and multi-return value helpers yield several forms.
+func c01Terms(x *c04X, fr *c04Frame, v ssa.Value, base c01Base, d int) ([]c01Term, bool) {
+	if d > 14 {
+		return nil, false
 	}
-	for _, t := range c.successTargets(fn) {
-		if findPath(Point{to, 0}, t.Target(), nil) != nil {
-			return false
+	cv := x.CanonInt(nil, fr, v)
+	if !base.lenOf && cv == base.v {
+		return []c01Term{{true, 0}}, true
+	}
+	if base.lenOf {
+		if vl, ok := c01IsBuiltin(cv.V, "len"); ok && x.Canon(nil, cv.Fr, vl.Call.Args[0]) == base.v {
+			return []c01Term{{true, 0}}, true
 		}
 	}
-	return len(c.errorTargets(fn)) > 0
+	if k, ok := constInt(cv.V); ok {
+		return []c01Term{{false, k}}, true
+	}
+	union := func(fr *c04Frame, vs []ssa.Value) ([]c01Term, bool) {
+		var out []c01Term
+		for _, e := range vs {
+			r, ok := c01Terms(x, fr, e, base, d+1)
+			if !ok {
+				return nil, false
+			}
+			out = append(out, r...)
+		}
+		return out, len(out) > 0
+	}
+	switch t := cv.V.(type) {
+	case *ssa.Phi:
+		return union(cv.Fr, t.Edges)
+	case *ssa.Call:
+		if k := cv.Fr.EnterV(t); k != nil && k.Fn.Signature.Results().Len() == 1 {
+			return union(k, c04RetOperands(x.p, k.Fn, 0))
+		}
+	case *ssa.Extract:
+		if call, ok := t.Tuple.(*ssa.Call); ok {
+			if k := cv.Fr.EnterV(call); k != nil {
+				return union(k, c04RetOperands(x.p, k.Fn, t.Index))
+			}
+		}
+	case *ssa.BinOp:
+		if t.Op != token.ADD {
+			return nil, false
+		}
+		a, ok1 := c01Terms(x, cv.Fr, t.X, base, d+1)
+		b, ok2 := c01Terms(x, cv.Fr, t.Y, base, d+1)
+		if !ok1 || !ok2 {
+			return nil, false
+		}
+		var out []c01Term
+		for _, p := range a {
+			for _, q := range b {
+				if p.par && q.par {
+					return nil, false
+				}
+				out = append(out, c01Term{p.par || q.par, p.c + q.c})
+			}
+		}
+		return out, true
+	}
+	return nil, false
 }
 
 // c01ParamNamed returns the parameter called name, or the one at position pos (receiver = 0) as a
